@@ -183,9 +183,42 @@ def check_recipe(r, tier, seed, rep=None, want=None):
         if rep:
             rep.transitions += 2
     closures.append(("evaluate", "-", lambda pd: e.evaluate(pd)))
+    # non-initial state: the same formula built as a DAG (shared sub-expression objects) whose sub-expressions
+    # were all compiled before the root (their closures sit in the LRU cache when the root is compiled)
+    if menu and size(r) > 1:
+        try:
+            from mc.interp import walk, kind_of
+
+            bs = Builder(params=params, share_scalars=True)
+            root = bs.build(r)
+            vlab, vn = menu[0]
+            Vs = bs.variables_for(vn)
+            subs = sorted({s_ for s_ in walk(r) if kind_of(s_) == "s" and s_ != r}, key=lambda t: (size(t), repr(t)))
+            for sub in subs:
+                o = bs.build(sub)
+                if isinstance(o, Expression):
+                    compiler.compile_expression(o, Vs)
+            if isinstance(root, Expression):
+                f4 = compiler.compile_expression(root, Vs)
+                closures.append(("dag-bottom-up", vlab, lambda pd, f=f4, vn=vn: f(np.array([pd.get(n, 0.125) for n in vn]))))
+                closures.append(("dag-evaluate", "-", lambda pd, e2=root: e2.evaluate(pd)))
+                for p_ in pnames:
+                    b.named[("par", p_)] = b.parameter(p_)
+                dag_params = [bs.parameter(p_) for p_ in pnames]
+            else:
+                dag_params = []
+            if rep:
+                rep.transitions += len(subs) + 1
+        except Exception as ex:
+            dag_params = []
+            fail("exception:compile-dag:" + type(ex).__name__, msg=str(ex)[:200])
+    else:
+        dag_params = []
 
     for phase, (ref, ok, err) in enumerate(refs):
         if phase == 1:
+            for dp in dag_params:
+                dp.set(PVALS[1])
             for p in pnames:
                 b.parameter(p).set(PVALS[1])
                 if rep:
